@@ -28,7 +28,7 @@ NAMES = ["a", "b", "c", "d"]
 CHUNK = 100
 
 INVARIANTS = ["C06_MatchesRules", "C06_EachParamOnce", "C06_SurplusPositional", "C06_UnknownKeyword",
-              "C06_DefaultsAtCallTime", "C06_CallerRules"]
+              "C06_DefaultsAtCallTime", "C06_CallerRules", "C06_KeywordNameIrrelevant"]
 
 _POOL = None
 
@@ -61,7 +61,7 @@ def close_pool():
 
 MC = """---- MODULE {name} ----
 EXTENDS MacroBind
-MCDefKinds == {{"const", "prev", "outer"}}
+MCDefKinds == {defkinds}
 MCUses == {uses}
 MCKwExtra == {kwextra}
 ====
@@ -70,7 +70,7 @@ MCKwExtra == {kwextra}
 ALL_USES = 'SUBSET {"varargs", "kwargs", "caller"}'
 
 
-def cfg(minp, maxp, maxdef, maxpos, maxkw, ec, cb, dup, live):
+def cfg(minp, maxp, maxdef, maxpos, maxkw, ec, cb, dup, rk, live):
     s = f"""CONSTANTS
   MaxParams = {maxp}
   MinParams = {minp}
@@ -83,6 +83,7 @@ def cfg(minp, maxp, maxdef, maxpos, maxkw, ec, cb, dup, live):
   MaxKw = {maxkw}
   CallBlocks = {cb}
   AllowDup = {dup}
+  ReservedKw = {rk}
 SPECIFICATION Spec
 """
     for i in INVARIANTS:
@@ -93,11 +94,12 @@ SPECIFICATION Spec
 
 
 def run_model(name, uses=ALL_USES, kwextra='{"u", "caller"}', minp=0, maxp=2, maxdef=2, maxpos=3, maxkw=3,
-              ec="{TRUE, FALSE}", cb="{TRUE, FALSE}", dup="TRUE", live=False, coverage=False, workers=8):
+              ec="{TRUE, FALSE}", cb="{TRUE, FALSE}", dup="TRUE", rk="{FALSE}",
+              defkinds='{"const", "prev", "outer"}', live=False, coverage=False, workers=8):
     d = core.workdir(PID, f"src_{name}")
     mod = f"MC{name}"
-    (d / f"{mod}.tla").write_text(MC.format(name=mod, uses=uses, kwextra=kwextra))
-    return core.run_tlc(PID, mod, cfg(minp, maxp, maxdef, maxpos, maxkw, ec, cb, dup, live), workers=workers,
+    (d / f"{mod}.tla").write_text(MC.format(name=mod, uses=uses, kwextra=kwextra, defkinds=defkinds))
+    return core.run_tlc(PID, mod, cfg(minp, maxp, maxdef, maxpos, maxkw, ec, cb, dup, rk, live), workers=workers,
                         extra_modules=[d / f"{mod}.tla"], name=f"tlc_{name}", coverage=coverage, timeout=3300,
                         heap="4g", env={"JAVA_TOOL_OPTIONS": "-XX:ParallelGCThreads=4"})
 
@@ -144,7 +146,8 @@ def macro_source(sig):
             parts.append(name)
         else:
             kind = dk[j]
-            default = {"const": f"'d{name}'", "prev": NAMES[i - 1] if i else "?", "outer": "o"}[kind]
+            # "self": the parameter's own name (an outer variable of that name exists, see chunk_template)
+            default = {"const": f"'d{name}'", "prev": NAMES[i - 1] if i else "?", "outer": "o", "self": name}[kind]
             parts.append(f"{name}={default}")
     if sig["ec"]:
         parts.append("caller='dcaller'")
@@ -161,17 +164,30 @@ def macro_source(sig):
     return "{% macro m(" + ", ".join(parts) + ") %}" + body + "{% endmacro %}"
 
 
-def expected_text(sig, out):
+def expected_text(sig, out, sp):
     n = sig["n"]
     uses = set(sig["uses"])
     s = "P=" + ",".join(shown(v) for v in out["params"][:n]) + ";"
     if "varargs" in uses:
         s += "V=" + ",".join(shown(v) for v in out["varargs"]) + ";"
     if "kwargs" in uses:
-        s += "K=" + "".join(f"{k}:{shown(v)}," for k, v in sorted(out["kwargs"])) + ";"
+        # (the body's |sort ignores case; names are distinct whatever their case)
+        pairs = sorted(((wire_name(k, sp), v) for k, v in out["kwargs"]), key=lambda kv: kv[0].lower())
+        s += "K=" + "".join(f"{k}:{shown(v)}," for k, v in pairs) + ";"
     if "caller" in uses:
         s += "C=" + shown(out["params"][n] if sig["ec"] else out["caller"]) + ";"
     return s
+
+
+# the spec's keyword name "class" stands for any reserved word of Python (compiler.signature tests
+# keyword.iskeyword); which one a case is written with is a seeded choice
+RESERVED = ["class", "for", "from", "is", "import", "lambda", "def", "if", "in", "not", "or", "and", "else",
+            "while", "with", "pass", "return", "None", "True", "global", "try", "yield", "as", "del"]
+
+
+def wire_name(k, sp):
+    """Spec keyword name -> the name written in the call."""
+    return sp["rname"] if k == "class" else k
 
 
 def spelling(call, rnd):
@@ -188,21 +204,26 @@ def spelling(call, rnd):
         use_dstar = True
     explicit = [k for k in kws if k not in dstar or k == call["dup"]]
     return {"nstar": nstar, "dstar": dstar, "use_dstar": use_dstar, "explicit": explicit,
-            "star_empty": npos == 0 and rnd.random() < 0.1}
+            "star_empty": npos == 0 and rnd.random() < 0.1, "rname": rnd.choice(RESERVED)}
 
 
 def kwval(call, k):
     return "kcaller" if k == "caller" else "k" + k
 
 
+def written(call, sp, k):
+    """The name keyword k of the spec is written with (u -> a reserved word of Python when call.rk)."""
+    return sp["rname"] if k == "u" and call.get("rk") else k
+
+
 def call_source(call, sp):
     npos = call["npos"]
     items = [lit(f"p{i + 1}") for i in range(npos - sp["nstar"])]
-    items += [f"{k}={lit(kwval(call, k))}" for k in sp["explicit"]]
+    items += [f"{written(call, sp, k)}={lit(kwval(call, k))}" for k in sp["explicit"]]
     if sp["nstar"] or sp["star_empty"]:
         items.append("*[" + ", ".join(lit(f"p{i + 1}") for i in range(npos - sp["nstar"], npos)) + "]")
     if sp["use_dstar"]:
-        items.append("**{" + ", ".join(f"{k!r}: {lit(kwval(call, k))}" for k in sp["dstar"]) + "}")
+        items.append("**{" + ", ".join(f"{written(call, sp, k)!r}: {lit(kwval(call, k))}" for k in sp["dstar"]) + "}")
     args = ", ".join(items)
     if call["cb"]:
         return "{% call m(" + args + ") %}CB{% endcall %}"
@@ -219,7 +240,11 @@ WRAPS = {
 
 def chunk_template(sig, calls, wrap):
     pre, post = WRAPS[wrap]
-    src = ["{% set o = 'od' %}", macro_source(sig), "{% set o = 'oc' %}", pre]
+    n, dk = sig["n"], sig["dk"]
+    # a parameter whose default is its own name: a template variable of that name exists (and must stay hidden)
+    own = "".join("{% set " + NAMES[n - len(dk) + j] + " = 'o" + NAMES[n - len(dk) + j] + "' %}"
+                  for j, kind in enumerate(dk) if kind == "self")
+    src = ["{% set o = 'od' %}", own, macro_source(sig), "{% set o = 'oc' %}", pre]
     for i, cs in enumerate(calls):
         src.append(("{% if" if i == 0 else "{% elif") + f" sel == {i}" + " %}" + cs)
     if calls:
@@ -257,8 +282,8 @@ def cb_callable():
 def python_call(macro, call, sp, is_async):
     npos = call["npos"]
     pos = [conc(f"p{i + 1}") for i in range(npos)]
-    d1 = {k: conc(kwval(call, k)) for k in sp["explicit"]}
-    d2 = {k: conc(kwval(call, k)) for k in sp["dstar"]}
+    d1 = {written(call, sp, k): conc(kwval(call, k)) for k in sp["explicit"]}
+    d2 = {written(call, sp, k): conc(kwval(call, k)) for k in sp["dstar"]}
     if call["cb"]:
         d1["caller"] = cb_callable
     rv = macro(*pos, **d1, **d2)
@@ -298,7 +323,7 @@ def check_chunk(job):
             raise core.MachineryError(f"generated template does not compile: {type(e).__name__}: {e}\n{src[:2000]}")
         for i, (c, sp) in enumerate(zip(cases, sps)):
             out = c["out"]
-            exp = ("raise", "TypeError") if out["kind"] == "TypeError" else ("ok", expected_text(sig, out))
+            exp = ("raise", "TypeError") if out["kind"] == "TypeError" else ("ok", expected_text(sig, out, sp))
             if is_async:
                 got_t = observe(lambda: run_coro(tpl.render_async(sel=i)))
             else:
@@ -357,9 +382,19 @@ def _run(ck):
             "Three": dict(minp=3, maxp=3, maxdef=3, maxpos=4, maxkw=4),
             "Four": dict(minp=4, maxp=4, maxdef=3, maxpos=5, maxkw=4, dup="FALSE", workers=12),
         }
+    # a parameter whose default mentions its own name (alone, followed by / following a "prev" default, next to
+    # a constant one), every call shape over {a, b, u}
+    models["Own"] = dict(maxp=2, maxdef=2, maxpos=3, maxkw=2, ec="{FALSE}", dup="FALSE", kwextra='{"u"}',
+                         defkinds='{"self", "prev", "const"}', workers=4,
+                         uses='{{}, {"varargs", "kwargs"}, {"varargs", "kwargs", "caller"}}')
+    # the unknown keyword written with a reserved word of Python (the call site delivers one mapping):
+    # every body kind, explicit caller parameter, call blocks
+    models["Resv"] = dict(maxp=2, maxdef=1, maxpos=2, maxkw=3, dup="FALSE", rk="{TRUE}",
+                          defkinds='{"const"}', workers=4)
     # liveness (every call terminates with an outcome) and action coverage on a tiny model; its cases
     # are a subset of Small's
-    models["Live"] = dict(maxp=1, maxdef=1, maxpos=2, maxkw=2, live=True, coverage=True, workers=2)
+    models["Live"] = dict(maxp=1, maxdef=1, maxpos=2, maxkw=2, live=True, coverage=True, workers=2,
+                          rk="{TRUE, FALSE}", defkinds='{"const", "prev", "outer", "self"}')
     t0 = time.time()
     results = {}
     with ThreadPoolExecutor(len(models)) as tp:
@@ -428,7 +463,9 @@ def _run(ck):
         "a keyword written twice literally, m(a=1, a=2), and {% call m(caller=x) %}: the generated Python call is a "
         "SyntaxError at compile time (not a binding outcome)",
         "parameters named varargs / kwargs; explicit `caller` parameter without a default or not in last position",
-        "defaults referring to later parameters or to themselves",
+        "defaults referring to later parameters",
+        "a keyword given twice (explicitly and in **mapping) in a call that also has a keyword named like a Python "
+        "reserved word: the call site is compiled to one merged dict(...) and the later value silently wins",
         "non-string keyword keys passed through **mapping",
     ]
     ck.assumptions += [
